@@ -226,7 +226,8 @@ def _host(f, p, v, env):
     if _quad(s) is not None:
         return (True, s) if p.get("allow_ipv4", True) else (False, None)
     if not s.isascii():
-        return UNKNOWN, None
+        # a DNS name is ASCII; only the (at most 15 character) NetBIOS form admits other word characters
+        return (False, None) if len(s) > 15 else (UNKNOWN, None)
     if s and not re.search(r"[^0-9.]", s):
         return UNKNOWN, None  # digits and dots only but not a dotted quad: is that a host name?
     if DNS_RE.match(s) or NETBIOS_RE.match(s):
@@ -238,9 +239,19 @@ def _url(f, p, v, env):
     ok, s = _str_base(f, v)
     if not ok:
         return ok, None
-    if any(ord(c) <= 0x20 for c in s) or "[" in s or "]" in s or not s.isascii():
+    if any(ord(c) <= 0x20 for c in s) or not s.isascii():
         return UNKNOWN, None
-    if SCHEME_RE.match(s):
+    m = SCHEME_RE.match(s)
+    if "[" in s or "]" in s:
+        # the one bracket rule every URL splitter has: inside the authority a '[' needs its ']' and vice versa
+        if m and s[m.end():].startswith("//"):
+            rest = s[m.end() + 2:]
+            cut = min([rest.find(c) for c in "/?#" if c in rest] or [len(rest)])
+            netloc = rest[:cut]
+            if ("[" in netloc) != ("]" in netloc):
+                return False, None
+        return UNKNOWN, None
+    if m:
         return True, s
     return False, None
 
